@@ -208,26 +208,32 @@ prop('C12', units=['inverse', 'prim_div', 'core', 'context', 'config'], level='p
      level_note=_NOTE_COMMON + ' A change inside the Newton loop is not seen by this check except through the replayed inputs.',
      technique=_TECH + '; replay of concrete inputs with an integer oracle')
 
-_C05_STUB = ('parse_small_2', 'parse_small_3', 'parse_small_3_scale', 'parse_small_3_digits', 'parse_small_3_utf8')
-_C05_BOUND = ('BOUNDED (not a proof): every string of at most 3 characters (quick: 2) over the alphabet {0 1 7 + - . e E _ x space}, and every string of at most 3 bytes '
-              'over {1 - . e 0xC2 0xBD} (which contains the two-byte character U+00BD), is run symbolically through the real BigDecimal::from_str_radix (radix 10) by Kani/CBMC '
-              'with loops unwound 6 times and unwinding assertions on; BigInt::from_str_radix is replaced by a recording stub and alloc::fmt::format by an empty-string stub')
+_C05_QUICK = ['parse_small_4', 'parse_small_3_utf8']
+_C05_THOROUGH = ['parse_small_6', 'parse_small_6_scale', 'parse_small_6_digits', 'parse_small_8_core', 'parse_small_5_utf8']
+_C05_STUB = tuple(_C05_QUICK + _C05_THOROUGH)
+_C05_BOUND = ('BOUNDED (not a proof): quick tier: every string of at most 4 characters over the alphabet {0 1 7 + - . e E _ x space} and every byte string of at most 3 bytes over '
+              '{1 - . e 0xC2 0xBD} (which contains the two-byte character U+00BD); thorough tier: at most 6 characters over the 11-symbol alphabet (acceptance, scale, digits), at most 8 '
+              'characters over the five structural characters {1 - . e _}, at most 5 bytes over the alphabet with U+00BD, plus a native sweep up to 7 characters. Each is run symbolically through the '
+              'real BigDecimal::from_str_radix (radix 10) by Kani/CBMC with loops unwound (length + 3) times and unwinding assertions on; BigInt::from_str_radix is replaced by a recording stub '
+              'and alloc::fmt::format by an empty-string stub')
 prop('C05', units=[], level='other',
-     hooks=[_h.kani_hook(['parse_small_2', 'parse_small_3_utf8'], tiers=('quick',), stubbing=_C05_STUB, bounded=_C05_BOUND, timeout=1500, required=True, concretize=['parse_sweep', '4']),
-            _h.kani_hook(list(_C05_STUB), tiers=('thorough',), stubbing=_C05_STUB, bounded=_C05_BOUND, timeout=2400, jobs=5, required=True, concretize=['parse_sweep', '4']),
-            _h.replay_hook([dict(args=['parse_sweep', '4'], what='native sweep of all strings up to 4 characters against the grammar recogniser')], tiers=('thorough',))],
+     hooks=[_h.kani_hook(_C05_QUICK, tiers=('quick',), stubbing=_C05_STUB, bounded=_C05_BOUND, timeout=1800, required=True, concretize=['parse_sweep', '4']),
+            _h.kani_hook(_C05_THOROUGH, tiers=('thorough',), stubbing=_C05_STUB, bounded=_C05_BOUND, timeout=3000, jobs=5, required=True, concretize=['parse_sweep', '5']),
+            _h.replay_hook([dict(args=['parse_sweep', '7'], what='native sweep of all strings up to 7 characters against the grammar recogniser')], tiers=('thorough',))],
      explanation=('BOUNDED CHECK, NOT A PROOF. The parser works on str (find / split_at / starts_with / char tests), which Verus cannot reason about, so no contract can be put on '
-                  'from_str_radix; the stand-in is Kani/CBMC on the real function for every string up to a small length over an alphabet that contains every structural character of the numeral '
+                  'from_str_radix; the stand-in is Kani/CBMC on the real function for every string up to a stated length over alphabets that contain every structural character of the numeral '
                   'grammar (digits, both signs, the point, both exponent markers, the underscore, a letter, a blank, and a two-byte UTF-8 character). Checked against a reference recogniser '
                   'written from the property statement: (1) a string is accepted exactly when it is a numeral of the grammar, (2) the scale of the result is fraction digits minus exponent, '
                   '(3) the integer parser is handed exactly the sign and digits of the numeral without the point, (4) no panic / overflow / out-of-bounds on any of these inputs '
-                  '(CBMC checks every arithmetic operation, slice index and unwrap). The thorough tier adds the length-3 harnesses and a native sweep up to length 4. '
+                  '(CBMC checks every arithmetic operation, slice index and unwrap). Bounds: quick 4 characters (3 bytes with the non-ASCII alphabet), thorough 6 characters (8 over the five '
+                  'structural characters, 5 bytes non-ASCII) plus a native sweep up to 7. '
                   'This found the genuine defect "a sign after the decimal point is accepted" (fixed, commit 343238e). Longer inputs, other characters, radix != 10 and parse_bytes on invalid UTF-8 '
                   'are NOT covered (the two Kani harnesses for them give no verdict within the memory available)'),
-     level_text=('BOUNDED, not proved: Kani/CBMC symbolic execution of the real from_str_radix over all strings up to 3 characters of a structural alphabet, against a reference recogniser of the numeral grammar '
-                 '(acceptance, scale, digits handed to the integer parser, absence of panics)'),
-     level_note=('Bound: length <= 3 (quick: 2), alphabet of 11 ASCII characters plus one two-byte character; BigInt::from_str_radix and fmt::format stubbed; failed checks inside Kani\'s own '
-                 'kani_lib.c dealloc model are ignored as artefacts of the format stub (listed in the evidence). No statement about longer strings.'),
+     level_text=('BOUNDED, not proved: Kani/CBMC symbolic execution of the real from_str_radix over all strings up to 4 characters (thorough: 6, and 8 over the structural characters) against a '
+                 'reference recogniser of the numeral grammar (acceptance, scale, digits handed to the integer parser, absence of panics)'),
+     level_note=('Bound: quick length <= 4 (3 bytes non-ASCII), thorough length <= 6 / 8 / 5; alphabet of 11 ASCII characters plus one two-byte character; BigInt::from_str_radix and fmt::format stubbed; '
+                 'failed checks inside Kani\'s own kani_lib.c dealloc model are ignored as artefacts of the format stub (listed in the evidence); a failed unwinding assertion is a harness error '
+                 '(exit 2), never a violation. No statement about longer strings.'),
      trusted_base=['Kani 0.68 / CBMC 6.11 and their model of the Rust standard library', 'stub of <BigInt as Num>::from_str_radix (records its argument, accepts sign + digits/underscores)',
                    'stub of alloc::fmt::format (returns an empty String; error messages are not examined)', 'reference recogniser of the numeral grammar in kani/harnesses.rs (written from the property statement)'],
      technique='bounded model checking with Kani/CBMC on the real parser (stand-in where no contract can be written; labelled bounded)')
